@@ -280,6 +280,7 @@ pub fn run_build_susp(s: &Scenario, mode: SchedMode, queued: bool, ch: &Ch, hook
       let label: &'static str = match site { "deferred" => "drain_deferred", "probe_candidates" => "order_of_probe_candidates", _ => "drain_dynamic_branches" };
       ch2.permutation(label, n, true)
     })));
+    crate::obs::CALLER_OWNS_ORDER.with(|c| c.set(true));
   }
   let drive = build_graph(
     &mut graph,
@@ -297,6 +298,7 @@ pub fn run_build_susp(s: &Scenario, mode: SchedMode, queued: bool, ch: &Ch, hook
     ch,
   );
   deno_graph::verif_hooks::set_drain_order_callback(None);
+  crate::obs::CALLER_OWNS_ORDER.with(|c| c.set(false));
   let mut writes = locker.log.borrow().clone();
   writes.sort();
   BuildOut {
@@ -401,6 +403,7 @@ fn body_worlds(space: crate::world::Space) -> impl Fn(&Ch) -> Run + Sync + Send 
           let label: &'static str = match site { "deferred" => "drain_deferred", "probe_candidates" => "order_of_probe_candidates", _ => "drain_dynamic_branches" };
           ch2.permutation(label, n, true)
         })));
+        crate::obs::CALLER_OWNS_ORDER.with(|c| c.set(true));
       }
       let r = build_graph(
         &mut graph,
@@ -410,6 +413,7 @@ fn body_worlds(space: crate::world::Space) -> impl Fn(&Ch) -> Run + Sync + Send 
         ch,
       );
       deno_graph::verif_hooks::set_drain_order_callback(None);
+  crate::obs::CALLER_OWNS_ORDER.with(|c| c.set(false));
       let mut writes = locker.log.borrow().clone();
       writes.sort();
       let o = obs(&graph);
